@@ -45,6 +45,7 @@ func buildFamily(family, tier string, seed int64) []*Scenario {
 		out = append(out, g.famTwoLevel("az", []string{"gt", "gte", "lt", "lte"}, numeric)...)
 	case "c02":
 		out = append(out, g.corpusC07("b")...) // path-collision and deep-nesting shapes with `required`
+		out = append(out, g.famDeep("bd", n(15, 60))...)
 		rep(n(1, 40), func(i int) []*Scenario { return g.famMatrix(fmt.Sprintf("b%03d", i), []string{"required"}, allTypes, 12, true) })
 	case "c03":
 		rep(n(3, 120), func(i int) []*Scenario {
@@ -72,10 +73,14 @@ func buildFamily(family, tier string, seed int64) []*Scenario {
 		out = append(out, g.famCombo("fz", n(12, 600), []string{"email", "url", "uuid", "alpha", "numeric", "ipv4", "ipv6"})...)
 	case "c09":
 		out = append(g.corpusC07("s"), g.famShapes("s", n(25, 100), n(6, 25))...)
+		out = append(out, g.famDeep("sd", n(15, 60))...)
+		out = append(out, g.corpusDoc("s")...)
 	case "c08":
 		out = g.famC08("w", n(30, 150))
 	case "c07":
 		out = append(g.corpusC07("r"), g.famRandom("r", n(24, 120), 8)...)
+		out = append(out, g.corpusDoc("r")...)
+		out = append(out, g.famWide("rw")...)
 	case "random":
 		out = g.famRandom("r", n(24, 120), 8)
 	case "all":
@@ -87,6 +92,7 @@ func buildFamily(family, tier string, seed int64) []*Scenario {
 		g.pool = 0
 		out = append(out, g.famMatrix("m", []string{"required", "gt", "gte", "lt", "lte", "minlength", "maxlength", "length", "minitems", "maxitems", "enum", "email", "url", "uuid", "alpha", "numeric", "ipv4", "ipv6"}, allTypes, 14, false)...)
 		out = append(out, g.famRandom("r", n(12, 60), 8)...)
+		out = append(out, g.famWide("mw")...)
 	}
 	return out
 }
